@@ -1284,7 +1284,7 @@ func runC09(c *core.Ctx) {
 	}
 
 	// ---- random readers
-	nReaders := c.N(5000, 100000)
+	nReaders := c.N(10000, 100000)
 	for i := 0; i < nReaders; i++ {
 		k := 2
 		switch r := c.Rng.Intn(10); {
@@ -1306,7 +1306,7 @@ func runC09(c *core.Ctx) {
 	}
 
 	// ---- dedupe reader
-	nDedupe := c.N(1000, 20000)
+	nDedupe := c.N(2000, 20000)
 	for i := 0; i < nDedupe; i++ {
 		cols := c09ColConfigs[c.Rng.Intn(len(c09ColConfigs))]
 		pattern := []string{"dense", "runs", "identical", "random"}[c.Rng.Intn(4)]
@@ -1316,7 +1316,7 @@ func runC09(c *core.Ctx) {
 	}
 
 	// ---- row groups: small inputs
-	nGroups := c.N(1500, 30000)
+	nGroups := c.N(3000, 30000)
 	fired := 0
 	for i := 0; i < nGroups; i++ {
 		k := c.Rng.Intn(10)
@@ -1347,7 +1347,7 @@ func runC09(c *core.Ctx) {
 	}
 
 	// ---- row groups: large file-backed inputs with small pages (refinement path), refined and unrefined plans
-	nBig := c.N(40, 700)
+	nBig := c.N(60, 700)
 	for i := 0; i < nBig; i++ {
 		k := 2 + c.Rng.Intn(3)
 		cols := [][]c09Col{{{}}, {{}}, {{Desc: true}}, {{}, {}}, {{Optional: true}}}[c.Rng.Intn(5)]
